@@ -150,6 +150,158 @@ def c07():
                      "extra_password_regexes")
 
 
+def harvest_forms():
+    """(template, class) pairs taken from the sample lines of the working tree's own test data
+    (tests/unit/test_sensitive_item_removal.py: module-level lists of (line template with '{}', sample secret)).
+    Only the INPUT lines are used - the oracle is the property check of this file.  The class is that of the sample
+    secret, so every template is exercised with secrets of the kind it is written for."""
+    import ast
+    root = os.path.dirname(os.path.dirname(os.path.abspath(sir.__file__)))
+    path = os.path.join(root, "tests", "unit", "test_sensitive_item_removal.py")
+    out = []
+    try:
+        tree_ = ast.parse(open(path).read())
+    except (OSError, SyntaxError):
+        return out
+    def cls_of(v):
+        if re.fullmatch(r"[0-9]+", v):
+            return "numeric"
+        if re.fullmatch(r"[01][0-9]([0-9a-fA-F]{2})+", v):
+            return "type7"
+        if re.fullmatch(r"[0-9a-fA-F]+", v):
+            return "hex"
+        if re.fullmatch(r"\$1\$\S+\$\S+", v):
+            return "md5"
+        if re.fullmatch(r"\$6\$\S+", v):
+            return "sha512"
+        if re.fullmatch(r"\$9\$\S+", v):
+            return "juniper"
+        return "text"
+    for node in tree_.body:
+        if not (isinstance(node, ast.Assign) and isinstance(node.value, ast.List)):
+            continue
+        for el in node.value.elts:
+            if isinstance(el, ast.Tuple) and len(el.elts) == 2 and all(isinstance(x, ast.Constant) and isinstance(x.value, str) for x in el.elts):
+                tpl, sample = el.elts[0].value, el.elts[1].value
+                if tpl.count("{}") != 1:
+                    continue
+                try:
+                    tpl.format("x")
+                except (IndexError, KeyError, ValueError):
+                    continue
+                out.append((tpl.replace("{}", "{s}"), cls_of(sample), len(sample)))
+    seen, uniq = set(), []
+    for t in out:
+        if t[:2] not in seen:
+            seen.add(t[:2])
+            uniq.append(t)
+    return uniq
+
+
+def c07_corpus():
+    """every sample line form of the repository's own test data, with generated secrets of the sample's class:
+    the secret does not survive, output and INFO+ log do not depend on its content"""
+    for form, cls, n in harvest_forms():
+        outs, logs = [], []
+        for variant in (1, 2):
+            s = secret(cls, variant)
+            if cls == "text" and n >= 32:
+                s = (("K%dz" % variant) * n)[:n]        # fixed-width fields (32-character pre-shared keys)
+            line = form.format(s=s)
+            h = LogCap()
+            logging.getLogger().addHandler(h)
+            try:
+                out = run_io(line + "\n", anon_pwd=True, anon_ip=False, salt="s")
+            finally:
+                logging.getLogger().removeHandler(h)
+            note(("corpus", form, cls, variant))
+            if s in out:
+                known = cls == "numeric" and re.search(r"(password|passwd)( level \d+)?( \d+)? ", form)
+                fail("C07.survives.numeric-after-password" if known else "C07.survives",
+                     {"line": line, "output": out, "class": cls}, "the secret is still in the output", "regexes")
+            for lv, msg in h.records:
+                if s in msg:
+                    fail("C07.log", {"line": line, "log": msg}, "secret logged at INFO or above", "log")
+            outs.append(out)
+            logs.append(h.records)
+        if outs[0] != outs[1] and not any(f["tag"].startswith("C07.survives") for f in FAILS[-2:]):
+            fail("C07.depends", {"form": form, "class": cls, "out1": outs[0], "out2": outs[1]},
+                 "output depends on the secret's content", "_anonymize_value")
+        if logs[0] != logs[1]:
+            fail("C07.logdepends", {"form": form, "class": cls}, "log depends on the secret's content", "log")
+
+
+def c_corpus(pid):
+    """one run over every sample line form of the repository's test data (see harvest_forms), each form twice with
+    two secrets A and B of its class: text around the secret kept (C09/C12), A always the same replacement, B always
+    another one (C08), replacement of the secret's format (C09)"""
+    from passlib.hash import cisco_type7, md5_crypt, sha512_crypt
+    forms = [f for f in harvest_forms() if not (f[1] == "numeric" and re.search(r"(password|passwd)( level \d+)?( \d+)? ", f[0]))]
+    by_cls = {}
+    for form, cls, n in forms:
+        by_cls.setdefault(cls, []).append((form, n))
+    for cls, fl in sorted(by_cls.items()):
+        secs = []
+        for v in (1, 2):
+            sv = secret(cls, v)
+            secs.append(sv)
+        lines, meta = [], []
+        for form, n in fl:
+            for k, sv in enumerate(secs):
+                if cls == "text" and n >= 32:
+                    sv = (("K%dz" % (k + 1)) * n)[:n]
+                lines.append(form.format(s=sv))
+                meta.append((form, k, sv))
+        note(("corpus-run", pid, cls, len(lines)))
+        outs = run_io("\n".join(lines) + "\n", anon_pwd=True, anon_ip=False, salt="s").splitlines()
+        if len(outs) != len(lines):
+            fail(pid + ".linecount", {"class": cls, "lines": len(lines), "outputs": len(outs)}, "number of lines changed", "anonymize_io")
+            continue
+        repl = {}
+        for (form, k, sv), line, out in zip(meta, lines, outs):
+            if SCRUB in out:
+                continue
+            nl, no = " ".join(line.split()), " ".join(out.split())
+            i = nl.find(sv)
+            pre, post = nl[:i], nl[i + len(sv):]
+            if i < 0 or not no.startswith(pre) or not no.endswith(post) or len(no) < len(pre) + len(post):
+                if pid in ("C09", "C12"):
+                    fail(pid + ".context", {"line": line, "output": out}, "text before/after the secret changed", "replace_matching_item")
+                continue
+            mid = no[len(pre):len(no) - len(post)]
+            if pid == "C08":
+                key = (k, len(sv))
+                repl.setdefault(key, set()).add(("J9:" + js.juniper_decrypt(mid)) if cls == "juniper" and mid.startswith("$9$") else mid)
+            if pid == "C09":
+                ok = True
+                try:
+                    if cls == "numeric":
+                        ok = mid.isdigit()
+                    elif cls == "hex":
+                        ok = re.fullmatch(r"[0-9a-fA-F]+", mid) is not None
+                    elif cls == "type7":
+                        ok = cisco_type7.identify(mid) and cisco_type7.decode(mid).startswith("netconanRemoved")
+                    elif cls == "md5":
+                        ok = md5_crypt.identify(mid) and len(mid.split("$")[2]) == len(sv.split("$")[2])
+                    elif cls == "sha512":
+                        ok = sha512_crypt.identify(mid) and "rounds=" not in mid
+                    elif cls == "juniper":
+                        ok = js.juniper_decrypt(mid).startswith("netconanRemoved")
+                except Exception:  # noqa
+                    ok = False
+                if not ok:
+                    fail("C09.format", {"line": line, "output": out, "class": cls, "replacement": mid},
+                         "replacement does not have the original's format", "_anonymize_value")
+        if pid == "C08":
+            for key, vals in repl.items():
+                if len(vals) > 1:
+                    fail("C08.inconsistent", {"class": cls, "secret": key[0], "replacements": sorted(vals)[:4]},
+                         "one secret received different replacements on different line forms", "_anonymize_value")
+            flat = [next(iter(v)) for v in repl.values() if len(v) == 1]
+            if len(set(flat)) != len(flat):
+                fail("C08.collision", {"class": cls, "replacements": flat[:6]}, "different secrets share a replacement", "_anonymize_value")
+
+
 def c07_multi():
     """several secrets of the same line form on one line (single-line JSON / XML, ';'-joined commands): none survives
     and the output does not depend on their content"""
@@ -390,6 +542,26 @@ def c08_multi():
         judge(outs, "anonymize_files over a directory")
     finally:
         shutil.rmtree(d, ignore_errors=True)
+
+
+def c10_unicode():
+    """listed words with non-ASCII letters, in the letter cases that map one-to-one (as listed, lower, upper when it
+    has the same length): none survives"""
+    words = ["Gießen", "zürich", "Ærø", "İzmir", "naïve"]
+    lines = []
+    for w in words:
+        variants = {w, w.lower()}
+        if len(w.upper()) == len(w) and w.upper().lower() == w.lower():
+            variants.add(w.upper())
+        for v in sorted(variants):
+            lines += ["hostname %s-core-rtr1" % v, "description link to %s, via x%sy" % (v, v)]
+    note(("unicode-words", len(lines)))
+    out = run_io("\n".join(lines) + "\n", salt="w", anon_pwd=False, anon_ip=False, sensitive_words=list(words))
+    for ln_in, ln_out in zip(lines, out.splitlines()):
+        for w in words:
+            if w.lower() in ln_in.lower() and w.lower() in ln_out.lower():
+                fail("C10.survives", {"words": words, "line": ln_in, "output": ln_out},
+                     "sensitive word %r survives" % w, "SensitiveWordAnonymizer")
 
 
 def c10_with_secrets():
@@ -853,13 +1025,13 @@ def c19():
         fail("C19.dump", {"error": e1}, "map dump with IP anonymization failed", "main")
 
 
-CHECKS = {"C07": [c07, c07_multi], "C08": [c08, c08_multi], "C09": [c09], "C10": [c10, c10_with_secrets], "C12": [c12, c12_verbatim], "C13": [c13], "C14": [c14], "C15": [c15],
+CHECKS = {"C07": [c07, c07_multi, c07_corpus], "C08": [c08, c08_multi, lambda: c_corpus("C08")], "C09": [c09, lambda: c_corpus("C09")], "C10": [c10, c10_with_secrets, c10_unicode], "C12": [c12, c12_verbatim, lambda: c_corpus("C12")], "C13": [c13], "C14": [c14], "C15": [c15],
           "C16": [c16], "C19": [c19]}
 BOUNDS = {
     "C07": "25 line forms x 7 secret format classes x 2 secret variants (same equality pattern), output and INFO+ log compared; 8 standalone hash tokens; 5 one-line templates carrying two secrets of the same form",
     "C08": "60/1500 random runs: 2-5 secrets of mixed classes over 3-8 lines, 6 enclosing-text variants, $9$ re-encodings under random salts; one run over two streams and over a two-file directory with shared secrets in different positions; 5 lines with two secrets of one form on the same line",
     "C09": "4 netconan salts x 5 line forms x 7 classes x 2/8 secrets x 8 enclosing-text variants; type 7 decoded, $1$ salt length, $6$ shape, $9$ decrypted",
-    "C10": "5 word lists (prefixes/substrings, mixed case, a regex metacharacter) x 3 reserved sets x 2/3 hash seeds (subprocesses) x 11 lines; 8 lines mixing words with secrets and scrubbed forms, secrets on and off",
+    "C10": "5 word lists (prefixes/substrings, mixed case, a regex metacharacter) x 3 reserved sets x 2/3 hash seeds (subprocesses) x 11 lines; 8 lines mixing words with secrets and scrubbed forms, secrets on and off; 5 words with non-ASCII letters in their one-to-one letter cases",
     "C12": "15 feature subsets x 5 texts (blank lines, tabs, CRLF, no final newline, empty); per-line independence for 17 lines; 11 tokens with backslash / template characters x 5 secret line forms carried over verbatim",
     "C13": "4 option sets x 2/4 hash seeds in fresh processes + in-process repeat after an unrelated anonymizer + caller's lists; no-salt path",
     "C14": "7 salts (empty, non-alphabet first character, non-ASCII) x 5 feature sets x ~75/650 hostile lines (backslashes, metacharacters, malformed hashes, 3000 quotes)",
